@@ -172,6 +172,7 @@ func lexExh(args []string) {
 		verbose = atoi(args[7])
 	}
 	count := 0
+	nt3, nt4 := 0, 0 // accepted lines with at least 2 / 3 records before "| OK" (pieces, or tokens incl. <eof>)
 	var h uint64
 	flush := func() {
 		if verbose < 0 {
@@ -198,6 +199,14 @@ func lexExh(args []string) {
 				fmt.Fprintf(out, "%s => %s\n", hx(prefix), line)
 			} else {
 				h = hashStr(h, line)
+				if strings.HasSuffix(line, "| OK") {
+					if sp := strings.Count(line, " "); sp >= 4 {
+						nt4++
+						nt3++
+					} else if sp >= 3 {
+						nt3++
+					}
+				}
 			}
 		}
 		count++
@@ -217,5 +226,8 @@ func lexExh(args []string) {
 	if count%4096 != 0 {
 		count = (count/4096 + 1) * 4096
 		flush()
+	}
+	if verbose < 0 {
+		fmt.Fprintf(out, "NONTRIV %d %d\n", nt3, nt4)
 	}
 }
